@@ -187,6 +187,7 @@ impl Graph {
 }
 
 /// Reference remapper first namespace -> second namespace of a two-namespace set (methods and classes only).
+thread_local! { pub static HALF_NAMED: std::cell::Cell<bool> = const { std::cell::Cell::new(false) }; }
 pub struct RefRemap { class: HashMap<String, String>, tables: HashMap<String, HashMap<(String, String), String>> }
 #[derive(Clone, Debug, PartialEq, Eq)]
 pub struct Hit { pub name: String, pub depth: usize, pub via_tableless: bool, pub declaring: String }
@@ -195,6 +196,14 @@ impl RefRemap {
         let mut class = HashMap::new();
         let mut tables = HashMap::new();
         for c in m.classes.values() {
+            // a class without a name in the second namespace is unmapped as a class; whether its members - which may have names in both -
+            // still map is open. With HALF_NAMED set their tables are included (used only to find the scenarios in which that matters).
+            if let (Some(a), None, true) = (&c.names[0], &c.names[1], HALF_NAMED.with(|h| h.get())) {
+                let mut t = HashMap::new();
+                for ((n, d), me) in &c.methods { if let (Some(_), Some(to)) = (&me.names[0], &me.names[1]) { t.insert((n.clone(), d.clone()), to.clone()); } }
+                tables.insert(a.clone(), t);
+                continue;
+            }
             let (Some(a), Some(b)) = (&c.names[0], &c.names[1]) else { continue };
             class.insert(a.clone(), b.clone());
             let mut t = HashMap::new();
